@@ -333,7 +333,7 @@ pub(crate) mod kani_verif {
     }
     // @h name=c08_root_seed_n32 props=C08,C09,C03,C01 tier=thorough kind=proved cfg=w8 funcs=ReferenceImplPrivateKey::generate_root_seed_and_lms_tree_identifier contract="3 hash calls on the hash-sigs top-seed pre-images; (seed, I) = (out1, out2[..16]); depends only on the n stored seed bytes; every seed, every hash function; n=32"
     rec_harness!(c08_root_seed_n32, check_root_seed::<32>(), 36);
-    // @h name=c08_root_seed_n24 props=C08,C09!,C03,C01 tier=quick kind=proved cfg=w8 funcs=ReferenceImplPrivateKey::generate_root_seed_and_lms_tree_identifier contract="same, n=24 (8 backing bytes beyond the seed must not influence the result)"
+    // @h name=c08_root_seed_n24 props=C08,C09!,C03,C01! tier=quick kind=proved cfg=w8 funcs=ReferenceImplPrivateKey::generate_root_seed_and_lms_tree_identifier contract="same, n=24 (8 backing bytes beyond the seed must not influence the result)"
     rec_harness!(c08_root_seed_n24, check_root_seed::<24>(), 36);
     // @h name=c08_root_seed_n16 props=C08,C09,C03,C01 tier=extended kind=proved cfg=w8 funcs=ReferenceImplPrivateKey::generate_root_seed_and_lms_tree_identifier contract="same, n=16"
     rec_harness!(c08_root_seed_n16, check_root_seed::<16>(), 36);
